@@ -246,3 +246,45 @@ theorem inferNext_eq_walk (raw : Str) (line col : Nat) :
     · simp
 
 end SqlfluffVerif.Pos
+
+namespace SqlfluffVerif.Pos
+open SqlfluffVerif.Util
+
+theorem trailing_append_noNL (a m : Str) (h : NL ∉ m) : trailing (a ++ m) = trailing a + m.length := by
+  induction m using rev_induction with
+  | nil => simp
+  | snoc m x ih =>
+    have hx : x ≠ NL := by intro hx; subst hx; simp at h
+    have hm : NL ∉ m := by intro hm; apply h; simp [hm]
+    rw [← List.append_assoc, trailing_snoc, ih hm]
+    simp [hx]; omega
+
+/-- two different offsets of a text never get the same (line, column) -/
+theorem linePos_injective (s : Str) (p q : Nat) (hp : p ≤ s.length) (hq : q ≤ s.length)
+    (h : linePos s p = linePos s q) : p = q := by
+  have key : ∀ (p q : Nat), p < q → q ≤ s.length → linePos s p ≠ linePos s q := by
+    intro p q hlt hq
+    have hp : p ≤ s.length := by omega
+    rw [linePos_eq_walk s p hp, linePos_eq_walk s q hq, walk_closed, walk_closed]
+    have hsplit : s.take q = s.take p ++ (s.drop p).take (q - p) := by
+      have : s.take q = (s.take q).take p ++ (s.take q).drop p := (List.take_append_drop p _).symm
+      rw [this, List.take_take, Nat.min_eq_left (by omega), List.drop_take]
+    by_cases hm : NL ∈ (s.drop p).take (q - p)
+    · intro heq
+      have h1 := congrArg Prod.fst heq
+      simp only at h1
+      rw [hsplit, List.count_append] at h1
+      have := List.count_pos_iff.mpr hm
+      omega
+    · intro heq
+      have h2 := congrArg Prod.snd heq
+      simp only at h2
+      rw [hsplit, trailing_append_noNL _ _ hm] at h2
+      have hl : ((s.drop p).take (q - p)).length = q - p := by simp; omega
+      omega
+  rcases Nat.lt_trichotomy p q with hlt | heq | hgt
+  · exact absurd h (key p q hlt hq)
+  · exact heq
+  · exact absurd h.symm (key q p hgt hp)
+
+end SqlfluffVerif.Pos
